@@ -520,6 +520,8 @@ class Eval:
         s.nalloca = 0; s.depth = 0
         s.solver_checks = 0
         s.loop_inv = {}; s.loop_havoc = {}
+        s.array_objs = {}
+        s.shadows = {}               # ast id of a wrap-free integer value -> (value, real-valued shadow)
         s.branch_preds = {}          # symbolic branch conditions met during evaluation (for automatic case splits)
 
     # ---------------------------------------------------------------- helpers
@@ -632,6 +634,7 @@ class Eval:
         if is_bool(like): return Bool(n)
         if is_bv(like): return BitVec(n, like.size())
         if is_real(like): return Real(n)
+        if z3.is_array(like): return z3.Const(n, like.sort())
         return None
 
     def root_of(s, obj):
@@ -736,6 +739,10 @@ class Eval:
             if t is None:
                 s.oblig.append((mk_and([st.pc, g]), BoolVal(False), 'NULL dereference in load: ' + text[:80])); continue
             obj, path = t
+            if obj in s.array_objs:
+                v = s.array_load(st, g, obj, path)
+                res = v if first else ite(g, v, res); first = False
+                continue
             key = (obj, key_of(path))
             s.accesses.append((mk_and([st.pc, g]), 'load', obj, path))
             stg = st if is_true(g) else State(st.pcl + [g], st.mem, st.env, st.cnt)   # obligations hold under this alternative's guard
@@ -778,6 +785,8 @@ class Eval:
             if t is None:
                 s.oblig.append((mk_and([st.pc, g]), BoolVal(False), 'NULL dereference in store: ' + text[:80])); continue
             obj, path = t
+            if obj in s.array_objs:
+                s.array_store(st, g, obj, path, val); continue
             if obj.startswith('g:') :
                 s.global_writes.append((mk_and([st.pc, g]), obj, path))
             key = (obj, key_of(path))
@@ -796,6 +805,36 @@ class Eval:
                 st.mem[key] = ite(g, val, old)
 
     global_writes = None
+
+    def array_get(s, st, obj):
+        ety, n = s.array_objs[obj]
+        k = (obj, ('ARR',))
+        if k in st.mem: return st.mem[k]
+        if k not in s.init_cache:
+            es = RealSort() if ety.kind == 'fp' else (z3.BoolSort() if ety.bits == 1 else BitVecSort(ety.bits))
+            s.init_cache[k] = z3.Const('uninit_%s' % obj, z3.ArraySort(BitVecSort(64), es))
+        return s.init_cache[k]
+
+    def array_idx(s, st, g, obj, path, what):
+        ety, n = s.array_objs[obj]
+        if len(path) != 2: raise Unsupported('array object addressed with path %r' % (path,))
+        p0, idx = path
+        if not (isinstance(p0, int) and p0 == 0): raise Unsupported('array object with non-zero base index')
+        i = BitVecVal(idx, 64) if isinstance(idx, int) else idx
+        c = simplify(And(i >= 0, i < n))
+        if not is_true(c):
+            s.oblig.append((mk_and([st.pc, g]), c, 'index into local array of %d elements within bounds (%s) in %s' % (n, what, obj.split('#')[0][2:])))
+        return i
+
+    def array_load(s, st, g, obj, path):
+        i = s.array_idx(st, g, obj, path, 'load')
+        return z3.Select(s.array_get(st, obj), i)
+
+    def array_store(s, st, g, obj, path, val):
+        i = s.array_idx(st, g, obj, path, 'store')
+        a = s.array_get(st, obj)
+        na = z3.Store(a, i, val)
+        st.mem[(obj, ('ARR',))] = na if is_true(g) else If(g, na, a)
 
     # ---------------------------------------------------------------- function evaluation
     def loops(s, f):
@@ -1077,8 +1116,20 @@ class Eval:
                 r = {'add': lambda: a + b, 'sub': lambda: a - b, 'mul': lambda: a * b, 'shl': lambda: a << b, 'lshr': lambda: LShR(a, b), 'ashr': lambda: a >> b,
                      'and': lambda: a & b, 'or': lambda: a | b, 'xor': lambda: a ^ b, 'sdiv': lambda: a / b, 'udiv': lambda: z3.UDiv(a, b),
                      'srem': lambda: z3.SRem(a, b), 'urem': lambda: z3.URem(a, b)}[op]()
-                if 'nsw' in ins.text.split(resolve(ins.ty, s.mod).__repr__())[0] and op in ('add', 'sub', 'mul'):
+                nsw = 'nsw' in ins.text.split(resolve(ins.ty, s.mod).__repr__())[0]
+                if nsw and op in ('add', 'sub', 'mul'):
                     s.nsw_oblig(st, op, a, b, f, ins)
+                rs = simplify(r)
+                if nsw and op in ('add', 'sub', 'mul', 'shl') and not is_bv_value(rs):
+                    # real-valued shadow of a wrap-free integer result (used by sitofp; independent of the simplifier's normal forms)
+                    ra, rb = s.int2real(a), s.int2real(b)
+                    if op == 'shl':
+                        cb = conc(b)
+                        sh = ra * RealVal(2 ** cb) if cb is not None and 0 <= cb < 62 else None
+                    else: sh = {'add': lambda: ra + rb, 'sub': lambda: ra - rb, 'mul': lambda: ra * rb}[op]()
+                    if sh is not None: s.shadows[rs.get_id()] = (rs, sh)
+                env[ins.res] = rs
+                return
             env[ins.res] = simplify(r)
         elif op in ('sext', 'zext', 'trunc'):
             a = s.const_val(ins.a, ins.ty, st); tb = resolve(ins.to, s.mod).bits
@@ -1115,7 +1166,11 @@ class Eval:
             s.store(st, s.const_val(ins.p, None, st), s.const_val(ins.v, ins.ty, st), ins.ty, ins.text)
         elif op == 'alloca':
             s.nalloca += 1
-            env[ins.res] = P.to('a:%s#%d' % (f.name, s.nalloca), (0,))
+            obj = 'a:%s#%d' % (f.name, s.nalloca)
+            aty = resolve(ins.ty, s.mod)
+            if aty.kind == 'array' and resolve(aty.elem, s.mod).kind in ('int', 'fp'):
+                s.array_objs[obj] = (resolve(aty.elem, s.mod), aty.n)      # local array: z3 Array (symbolic indices allowed)
+            env[ins.res] = P.to(obj, (0,))
         elif op == 'call':
             v = s.do_call(f, ins, st)
             if ins.res: env[ins.res] = v
@@ -1144,7 +1199,35 @@ class Eval:
             s.oblig.append((st.pc, c, 'signed overflow (nsw %s) in %s: %s' % (op, f.name, ins.text[:50])))
 
     def int2real(s, a, signed=True):
-        return ToReal(BV2Int(a, is_signed=signed))
+        """sitofp: integer arithmetic below the conversion is translated to real arithmetic (add/sub/mul/neg wrap-free:
+        the IR's nsw flags make wrapping undefined and are discharged as separate obligations); leaves stay BV2Int terms"""
+        if not signed: return ToReal(BV2Int(a, is_signed=False))
+        memo = {}
+        def tr(x):
+            k = x.get_id()
+            if k in memo: return memo[k]
+            if k in s.shadows and s.shadows[k][0].eq(x):
+                memo[k] = s.shadows[k][1]; return memo[k]
+            kind = x.decl().kind() if z3.is_app(x) else None
+            if is_bv_value(x): r = RealVal(x.as_signed_long())
+            elif kind == z3.Z3_OP_BMUL and x.num_args() >= 2:
+                r = tr(x.arg(0))
+                for i in range(1, x.num_args()): r = r * tr(x.arg(i))
+            elif kind == z3.Z3_OP_BADD and x.num_args() >= 2:
+                r = tr(x.arg(0))
+                for i in range(1, x.num_args()): r = r + tr(x.arg(i))
+            elif kind == z3.Z3_OP_BSUB and x.num_args() == 2: r = tr(x.arg(0)) - tr(x.arg(1))
+            elif kind == z3.Z3_OP_BNEG: r = -tr(x.arg(0))
+            elif kind == z3.Z3_OP_BNOT: r = -tr(x.arg(0)) - 1
+            elif kind == z3.Z3_OP_SIGN_EXT: r = tr(x.arg(0))
+            elif kind == z3.Z3_OP_BSHL and is_bv_value(x.arg(1)): r = tr(x.arg(0)) * RealVal(2 ** x.arg(1).as_long())
+            elif (kind == z3.Z3_OP_CONCAT and x.num_args() == 2 and is_bv_value(x.arg(1)) and x.arg(1).as_long() == 0
+                  and z3.is_app(x.arg(0)) and x.arg(0).decl().kind() == z3.Z3_OP_EXTRACT and x.arg(0).params()[1] == 0
+                  and x.arg(0).params()[0] + 1 + x.arg(1).size() == x.size()):
+                r = tr(x.arg(0).arg(0)) * RealVal(2 ** x.arg(1).size())      # simplify's form of x << n, i.e. x * 2^n (wrap-free by nsw)
+            else: r = ToReal(BV2Int(x, is_signed=True))
+            memo[k] = r; return r
+        return tr(a)
 
     def ptr_cmp(s, a, b, p):
         if not isinstance(a, P) or not isinstance(b, P): raise Unsupported('pointer compare of non-pointers')
@@ -1199,6 +1282,15 @@ class Eval:
             return s.hooks[name](s, st, args, ins)
         if name.startswith('llvm.lifetime') or name.startswith('llvm.dbg') or name in ('llvm.assume', 'llvm.experimental.noalias.scope.decl'):
             return None
+        if name.startswith('llvm.memset'):
+            ptr, val = args[0], args[1]
+            t = ptr.single() if isinstance(ptr, P) else Ellipsis
+            if t is Ellipsis or t is None or t[0] not in s.array_objs or conc(val) != 0:
+                raise Unsupported('memset other than zeroing a whole local array')
+            ety, n = s.array_objs[t[0]]
+            zero = RealVal(0) if ety.kind == 'fp' else BitVecVal(0, ety.bits)
+            st.mem[(t[0], ('ARR',))] = z3.K(BitVecSort(64), zero)
+            return None
         if name in ('xrl_set_error_literal', 'xrl_set_error'):
             s.set_error(st, args[0], code=args[1], msg=args[2], how=name); return None
         if name == 'xrl_propagate_error':
@@ -1229,6 +1321,8 @@ class Eval:
         if nm == 'sqrt': s.oblig.append((st.pc, x >= 0, 'sqrt argument non-negative'))
         if nm == 'log' or nm == 'log10': s.oblig.append((st.pc, x > 0, 'log argument positive'))
         if nm in ('asin', 'acos'): s.oblig.append((st.pc, And(x >= -1, x <= 1), nm + ' argument within [-1,1]'))
+        if nm == 'pow' and z3.is_rational_value(simplify(args[1])) and simplify(args[1]).as_fraction() == 2:
+            return x * x                                  # pow(x, 2) is exact squaring
         if nm in ('pow', 'atan2'):
             fn = s.uf('m_' + nm, [RealSort(), RealSort()], RealSort()); r = fn(x, args[1])
         else:
@@ -1241,6 +1335,9 @@ class Eval:
         if nm == 'exp': s.axioms.append(r > 0)
         elif nm == 'sqrt': s.axioms.append(And(r >= 0, Implies(x >= 0, r * r == x)))
         elif nm in ('sin', 'cos'): s.axioms.append(And(r >= -1, r <= 1))
+        elif nm == 'asin':
+            sin = s.uf('m_sin', [RealSort()], RealSort())
+            s.axioms.append(Implies(And(x >= -1, x <= 1), sin(r) == x))      # sin(asin u) = u on [-1, 1]
         elif nm == 'pow' and False: pass
 
     def call_prim(s, name, prim, args, st, ins):
@@ -1403,21 +1500,28 @@ def abstract_nl(fs):
     return [walk(f) for f in keep]
 
 
-def ackermannize(fs):
-    """replace every uninterpreted-function application by a fresh constant (congruence dropped: sound for proving)"""
+def ackermannize(fs, drop_bv=False):
+    """generalise to pure real arithmetic (sound for proving): every uninterpreted-function application, every int->real
+    conversion and every atom over bit-vectors becomes a fresh constant (congruence dropped)"""
     memo = {}; cache = {}
+    def fresh(x):
+        k = x.get_id(); r = cache.get(k)
+        if r is None: r = cache[k] = z3.Const('ack!%d' % len(cache), x.sort())
+        return r
     def walk(x):
         k = x.get_id()
         if k in memo: return memo[k]
         if not z3.is_app(x) or x.num_args() == 0:
             memo[k] = x; return x
-        if x.decl().kind() == z3.Z3_OP_UNINTERPRETED:
-            r = cache.get(k)
-            if r is None: r = cache[k] = z3.Const('ack!%d' % len(cache), x.sort())
-            memo[k] = r; return r
-        ch = [walk(c) for c in x.children()]
-        try: r = x.decl()(*ch)
-        except Exception: r = x
+        kind = x.decl().kind()
+        if kind == z3.Z3_OP_UNINTERPRETED or kind == z3.Z3_OP_TO_REAL or z3.is_array(x) or kind == z3.Z3_OP_SELECT:
+            r = fresh(x)
+        elif drop_bv and is_bool(x) and any(is_bv(c) for c in x.children()):
+            r = fresh(x)
+        else:
+            ch = [walk(c) for c in x.children()]
+            try: r = x.decl()(*ch)
+            except Exception: r = x
         memo[k] = r; return r
     keep = [simplify(f) for f in fs]      # keep alive: memo is keyed by ast id
     return [walk(f) for f in keep]
@@ -1479,20 +1583,134 @@ def hard(fn, timeout):
     except Exception as e: return ('unknown', 'result unreadable: %r' % e)
 
 
+def resolve_arrays(fs, distinct_terms):
+    """rewrite Select-over-Store chains given that the listed index terms are pairwise distinct (and syntactically equal
+    indices are equal): Select(Store(a,i,v),j) -> v if i is j, -> Select(a,j) if i, j are distinct listed terms"""
+    keep = [simplify(f) for f in fs]
+    dset = {simplify(t).get_id(): simplify(t) for t in distinct_terms}
+    memo = {}
+    def sel(arr, j):
+        while True:
+            if z3.is_app(arr) and arr.decl().kind() == z3.Z3_OP_STORE:
+                b, i, v = arr.arg(0), arr.arg(1), arr.arg(2)
+                if i.eq(j): return walk(v)
+                if (i.get_id() in dset and j.get_id() in dset) or (is_bv_value(i) and is_bv_value(j)): arr = b; continue
+                return z3.Select(walk(arr), j)
+            if z3.is_app(arr) and arr.decl().kind() == z3.Z3_OP_CONST_ARRAY: return walk(arr.arg(0))
+            if z3.is_app(arr) and arr.decl().kind() == z3.Z3_OP_ITE:
+                return If(walk(arr.arg(0)), sel(arr.arg(1), j), sel(arr.arg(2), j))
+            return z3.Select(walk(arr), j)
+    def walk(x):
+        k = x.get_id()
+        if k in memo: return memo[k]
+        if not z3.is_app(x) or x.num_args() == 0: memo[k] = x; return x
+        if x.decl().kind() == z3.Z3_OP_SELECT: r = sel(x.arg(0), walk(x.arg(1)))
+        else:
+            ch = [walk(c) for c in x.children()]
+            try: r = x.decl()(*ch)
+            except Exception: r = x
+        memo[k] = r; return r
+    return [simplify(walk(f)) for f in keep]
+
+
+def _bv_only(e, memo):
+    """True if the Boolean term mentions bit-vector variables and no reals / uninterpreted real functions"""
+    k = e.get_id()
+    if k in memo: return memo[k]
+    if is_real(e) or is_int(e) or z3.is_array(e): r = False
+    elif z3.is_app(e) and e.decl().kind() == z3.Z3_OP_UNINTERPRETED and e.num_args() > 0:
+        r = is_bv(e) or is_bool(e)            # a bit-vector valued table cell is an opaque bit-vector leaf
+        r = r and all(_bv_only(c, memo) for c in e.children())
+    else: r = all(_bv_only(c, memo) for c in e.children())
+    memo[k] = r; return r
+
+
+def decide_bv_atoms(fs, timeout=5):
+    """atoms over bit-vectors only whose truth value follows from the bit-vector-only conjuncts of the negated claim are
+    replaced by that value (each decided by a small BV query); returns rewritten formulas"""
+    keep = [simplify(f) for f in fs]
+    memo = {}
+    conj = []
+    def top(e, pos=True):
+        if z3.is_not(e): top(e.arg(0), not pos)
+        elif pos and z3.is_and(e):
+            for c in e.children(): top(c, True)
+        elif not pos and z3.is_or(e):
+            for c in e.children(): top(c, False)
+        elif not pos and z3.is_implies(e):
+            top(e.arg(0), True); top(e.arg(1), False)
+        else: conj.append(e if pos else Not(e))
+    for f in keep: top(f)
+    bvc = [c for c in conj if _bv_only(c, memo) and any(True for _ in [0])]
+    bvc = [c for c in bvc if _has_bv(c)]
+    atoms = {}
+    def collect(e, seen):
+        if e.get_id() in seen: return
+        seen.add(e.get_id())
+        if is_bool(e) and z3.is_app(e) and e.num_args() > 0 and _bv_only(e, memo) and _has_bv(e): atoms[e.get_id()] = e; return   # maximal BV-only Boolean subformula
+        for c in e.children(): collect(c, seen)
+    seen = set()
+    for f in keep: collect(f, seen)
+    subs = []
+    for a in atoms.values():
+        sol = Solver(); sol.set('timeout', timeout * 1000)
+        for c in bvc: sol.add(c)
+        sol.push(); sol.add(Not(a))
+        if sol.check() == unsat: subs.append((a, BoolVal(True))); continue
+        sol.pop(); sol.add(a)
+        if sol.check() == unsat: subs.append((a, BoolVal(False)))
+    if not subs: return keep
+    return [simplify(z3.substitute(f, *subs)) for f in keep]
+
+
+def generalize_to_bv(fs):
+    keep = [simplify(f) for f in fs]; memo = {}; bmemo = {}; cache = {}
+    def walk(x):
+        k = x.get_id()
+        if k in memo: return memo[k]
+        if is_bool(x) and z3.is_app(x) and x.num_args() > 0 and not (z3.is_and(x) or z3.is_or(x) or z3.is_not(x) or z3.is_implies(x)
+                                                                       or (x.decl().kind() == z3.Z3_OP_ITE) or (z3.is_eq(x) and is_bool(x.arg(0)))):
+            if _bv_only(x, bmemo): r = x
+            else:
+                r = cache.get(k)
+                if r is None: r = cache[k] = Bool('gen!%d' % len(cache))
+        elif is_bool(x) and z3.is_app(x) and x.num_args() > 0:
+            r = x.decl()(*[walk(c) for c in x.children()])
+        else: r = x
+        memo[k] = r; return r
+    return [walk(f) for f in keep]
+
+
+def _has_bv(e, seen=None):
+    seen = set() if seen is None else seen
+    if e.get_id() in seen: return False
+    seen.add(e.get_id())
+    if is_bv(e): return True
+    return any(_has_bv(c, seen) for c in e.children())
+
+
 def prove(claim, assumptions=(), axioms=(), timeout=60, tactic=None, abstract=True):
     """returns ('proved', None) / ('refuted', model dict) / ('unknown', reason); hard wall-clock limit.
     Stage 1: non-linear products/quotients abstracted to uninterpreted functions (QF_UFLRA+BV): unsat there proves the
-    claim.  Stage 2: the exact query (z3 nlsat), which is also the only source of counterexamples."""
+    claim.  Stage 2: generalisation to pure real arithmetic (UF applications, int->real conversions and undecided bit-vector
+    atoms become fresh constants; bit-vector atoms decided by the bit-vector premises are replaced by their value) solved by
+    nlsat.  Stage 3: the exact query, which is also the only source of counterexamples."""
     if abstract:
         def stage1():
             fs = abstract_nl(list(axioms) + list(assumptions) + [Not(claim)])
-            return _solve(None, fs, (), min(timeout, 30), None)
-        res, m = hard(stage1, min(timeout, 30))
+            return _solve(None, fs, (), min(timeout, 8), None)
+        res, m = hard(stage1, min(timeout, 8))
         if res == 'unsat': return 'proved', None
         def stage2():
-            fs = ackermannize(list(axioms) + list(assumptions) + [Not(claim)])
+            fs = decide_bv_atoms(list(axioms) + list(assumptions) + [Not(claim)])
+            fs = ackermannize(fs, drop_bv=True)
             return _solve(None, fs, (), min(timeout, 30), None)
         res, m = hard(stage2, min(timeout, 30))
+        if res == 'unsat': return 'proved', None
+        def stage2b():      # pure bit-vector generalisation: atoms that mention reals become fresh Booleans
+            fs = generalize_to_bv(list(axioms) + list(assumptions) + [Not(claim)])
+            return _solve(None, fs, (), min(timeout, 20), None)
+        res, m = hard(stage2b, min(timeout, 20))
         if res == 'unsat': return 'proved', None
     res, m = hard(lambda: _solve(claim, assumptions, axioms, timeout, tactic), timeout)
     return {'unsat': 'proved', 'sat': 'refuted'}.get(res, 'unknown'), m
